@@ -91,3 +91,28 @@ Lemma w_uids_outs :
     OFetch (PSync (mkSync 0 None None))
            [(101, true, false, 1); (102, true, false, 2); (104, true, false, 4)] ].
 Proof. vm_compute. reflexivity. Qed.
+
+(* open finding C04-F1: a selection whose remembered name now denotes another
+   mailbox is reachable (RENAME INBOX by another connection).  The code keeps
+   serving such a connection from the other mailbox under the UIDVALIDITY it
+   was given; the model answers [OStaleCmd]/[PStale] and leaves the state
+   alone, i.e. this class of commands is *not covered* by the theorems about
+   what a selection is shown. *)
+Definition w_stale : list (op * choice) :=
+  [ (Append 1 INBOX [(1, false, false)], ch0);
+    (Select 0 INBOX false, ch0);
+    (Rename 1 INBOX 1, ch0);
+    (Append 1 INBOX [(2, false, false)], ch0) ].
+
+Lemma w_stale_reachable :
+  exists tr s, resolve (run init tr) s = RStale /\
+    snd (step (run init tr) (Fetch s) ch0) = OStaleCmd /\
+    exists sl i b, lookup s (sess (run init tr)) = Some sl /\
+      find_box (run init tr) (s_name sl) = Some (i, b) /\ i <> s_bid sl /\
+      (exists m, In m (b_msgs b) /\ m_uid m = 101 /\ m_mark m = 2) /\
+      In 101 (s_view sl).
+Proof.
+  exists w_stale, 0. vm_compute. split; [reflexivity|]. split; [reflexivity|].
+  do 3 eexists. split; [reflexivity|]. split; [reflexivity|]. split; [discriminate|].
+  split; [|left; reflexivity]. eexists. split; [left; reflexivity|]. split; reflexivity.
+Qed.
